@@ -11,18 +11,48 @@ def c01TypeRegion (flags : List String) (generic : Bool) (t : Tree) : String :=
   if !wfLevels t then "Out"
   else if !wfOnce t then "Out"
   else if needPascal && !((vis.map (fun l => Transfer.pascalS l.info.name)).Nodup) then "Out"
-  else if vis.any (fun l => isExportedName l.info.name && l.info.name.contains '_') then "Out"
+  -- (an exported name that is not PascalCase, `User_name`, was put outside the domain here until round 7; it was a defect of
+  -- the -json shadow struct, repaired by bf10dd1)
   else "WF"
+
+def ownFields : Tree → List FInfo
+  | .nil => []
+  | .field f rest => f :: ownFields rest
+  | .embed _ _ _ _ _ rest => ownFields rest
+
+def topEmbeds : Tree → List (String × Tree)
+  | .nil => []
+  | .field _ rest => topEmbeds rest
+  | .embed n _ _ _ body rest => (n, body) :: topEmbeds rest
+
+/-- finding region F_newShadowIface (-getset): an own unexported field of T shadows a field of an embedded struct that is
+    itself generated in this run (so `<E>Getter` / `<E>Setter` exist and T's accessor interfaces embed them), the two
+    fields have different types and Pascal-case to the same name: `TGetter` declares `Name() A` next to the embedded
+    `Name() B` -- `duplicate method` -- although shoot reports success. (The method T really has is the own one; no
+    interface embedding `<E>Getter` can be satisfied by *T.) -/
+def shadowIface (runTypes : List String) (t : Tree) : Bool :=
+  let own := (ownFields t).filter (fun f => !f.skip && !isExportedName f.name)
+  (topEmbeds t).any (fun e =>
+    runTypes.contains e.1 &&
+    (visibleLeaves e.2).any (fun l => !l.info.skip && !isExportedName l.info.name &&
+      own.any (fun f => Transfer.pascalS f.name == Transfer.pascalS l.info.name && f.ptype != l.info.ptype)))
 
 /-- `(c01new (flags f…) (mode m) (types (t name (generic b) (tree M…)) …))` -/
 def c01newCase (id : String) (payload : List Sexp) : List String :=
   let p := Sexp.list (.atom "p" :: payload)
   let flags := match p.field? "flags" with | some (.list (_ :: fs)) => fs.filterMap Sexp.asAtom? | _ => []
   let types := match p.field? "types" with | some (.list (_ :: ts)) => ts | _ => []
+  let runTypes := types.filterMap (fun ty => match ty with
+    | .list (.atom "t" :: .atom n :: _) => some n
+    | _ => none)
   let regs := types.map (fun ty =>
     let generic := match ty.field? "generic" with | some (.list [_, .atom "true"]) => true | _ => false
     match ty.field? "tree" with
-    | some (.list (_ :: ms)) => (match parseMembers ms with | some t => c01TypeRegion flags generic t | none => "Out")
+    | some (.list (_ :: ms)) => (match parseMembers ms with
+        | some t =>
+          let r := c01TypeRegion flags generic t
+          if r == "WF" && flags.contains "-getset" && shadowIface runTypes t then "F_newShadowIface" else r
+        | none => "Out")
     | _ => "Out")
   -- `-opt -short`: option functions are package-level `Pascal(field)`; two generated types sharing a field name
   -- cannot both have them. Inherent to -short (the user chooses it per package) -> Out, not a finding
